@@ -63,6 +63,18 @@ enum Op {
     HardLink { from: usize, to: usize },
     Symlink { from: usize, to: usize },
     PathMetadata { name: usize, follow: bool },
+    /// through a directory handle (`Dir`, the *at family): `sub` picks the handle of the task's directory or of
+    /// its sub-directory "sub"; two-name operations may go from one handle to the other
+    DirOpen { slot: usize, sub: bool, name: usize, how: u8 },
+    DirCreateDir { sub: bool, name: usize, all: Option<usize> },
+    DirMetadata { sub: bool, name: usize, follow: bool },
+    DirHardLink { sub: bool, from: usize, to_sub: bool, to: usize },
+    DirSymlink { sub: bool, from: usize, to: usize },
+    DirRename { sub: bool, from: usize, to_sub: bool, to: usize },
+    DirRemove { sub: bool, name: usize, dir: bool },
+    DirRead { sub: bool, name: usize },
+    DirWrite { sub: bool, name: usize, len: usize },
+    DirOpenDir { sub: bool, name: usize },
 }
 
 fn pos() -> u64 {
@@ -87,7 +99,8 @@ fn len() -> usize {
 fn gen_op() -> Op {
     let slot = sim::range("slot", 0, SLOTS as u64 - 1) as usize;
     let name = || sim::choose("name", NAMES.len());
-    match sim::weighted("op", &[5, 2, 6, 3, 6, 3, 3, 2, 1, 2, 1, 2, 2, 2, 2, 2, 1, 1, 1, 1, 2]) {
+    let sub = || sim::flip("dir.sub", 1, 2);
+    match sim::weighted("op", &[5, 2, 6, 3, 6, 3, 3, 2, 1, 2, 1, 2, 2, 2, 2, 2, 1, 1, 1, 1, 2, 2, 1, 1, 1, 1, 2, 1, 1, 1, 1]) {
         0 => {
             let write = sim::flip("open.write", 3, 4);
             Op::Open {
@@ -95,7 +108,8 @@ fn gen_op() -> Op {
                 name: name(),
                 read: sim::flip("open.read", 3, 4),
                 write,
-                truncate: write && sim::flip("open.truncate", 1, 4),
+                // (without write access truncate is refused before any system call, as std refuses it)
+                truncate: sim::flip("open.truncate", 1, 4) && (write || sim::flip("open.truncate.readonly", 1, 3)),
                 create: sim::flip("open.create", 1, 2),
                 create_new: sim::flip("open.create_new", 1, 8),
                 append: write && sim::flip("open.append", 1, 6),
@@ -132,7 +146,17 @@ fn gen_op() -> Op {
         17 => Op::RemoveDir { name: name() },
         18 => Op::HardLink { from: name(), to: name() },
         19 => Op::Symlink { from: name(), to: name() },
-        _ => Op::PathMetadata { name: name(), follow: sim::flip("meta.follow", 1, 2) },
+        20 => Op::PathMetadata { name: name(), follow: sim::flip("meta.follow", 1, 2) },
+        21 => Op::DirOpen { slot, sub: sub(), name: name(), how: sim::choose("dir.open.how", 4) as u8 },
+        22 => Op::DirCreateDir { sub: sub(), name: name(), all: if sim::flip("dir.mkdir.all", 1, 2) { Some(name()) } else { None } },
+        23 => Op::DirMetadata { sub: sub(), name: name(), follow: sim::flip("meta.follow", 1, 2) },
+        24 => Op::DirHardLink { sub: sub(), from: name(), to_sub: sub(), to: name() },
+        25 => Op::DirSymlink { sub: sub(), from: name(), to: name() },
+        26 => Op::DirRename { sub: sub(), from: name(), to_sub: sub(), to: name() },
+        27 => Op::DirRemove { sub: sub(), name: name(), dir: sim::flip("dir.remove.dir", 1, 3) },
+        28 => Op::DirRead { sub: sub(), name: name() },
+        29 => Op::DirWrite { sub: sub(), name: name(), len: len() },
+        _ => Op::DirOpenDir { sub: sub(), name: name() },
     }
 }
 
@@ -192,8 +216,8 @@ fn fs_model() -> RunResult {
     let root = std::env::temp_dir().join(format!("verif-k-fs-{}-{}", std::process::id(), N.fetch_add(1, std::sync::atomic::Ordering::Relaxed)));
     let _ = std::fs::remove_dir_all(&root);
     for t in 0..ntasks {
-        std::fs::create_dir_all(root.join("a").join(format!("t{t}"))).expect("scratch tree");
-        std::fs::create_dir_all(root.join("b").join(format!("t{t}"))).expect("scratch tree");
+        std::fs::create_dir_all(root.join("a").join(format!("t{t}")).join("sub")).expect("scratch tree");
+        std::fs::create_dir_all(root.join("b").join(format!("t{t}")).join("sub")).expect("scratch tree");
     }
     let errs = Errs::default();
     let payload_seed = sim::subseed("payload");
@@ -426,7 +450,12 @@ async fn step(errs: &Errs, da: &Path, db: &Path, slots: &mut [Option<Handle>], o
             let ours = h.ours.metadata().await;
             let os = h.os.metadata();
             if same_outcome(errs, &tag, &ours, &os) {
-                compare_meta(errs, &tag, &ours.unwrap(), &os.unwrap());
+                compare_meta(errs, &tag, ours.as_ref().unwrap(), &os.unwrap());
+                // the time stamps: against the OS's own view of the very same open file
+                let same = std::mem::ManuallyDrop::new(unsafe { <std::fs::File as std::os::fd::FromRawFd>::from_raw_fd(h.ours.as_raw_fd()) });
+                if let Ok(same) = same.metadata() {
+                    compare_times(errs, &tag, &ours.unwrap(), &same);
+                }
             }
         }
         Op::SetPermissions { slot, mode } if need(slots, slot) => {
@@ -491,11 +520,128 @@ async fn step(errs: &Errs, da: &Path, db: &Path, slots: &mut [Option<Handle>], o
             let os = std::os::unix::fs::symlink(NAMES[from], pb(to));
             same_outcome(errs, &tag, &ours, &os);
         }
+        Op::DirOpen { .. } | Op::DirCreateDir { .. } | Op::DirMetadata { .. } | Op::DirHardLink { .. } | Op::DirSymlink { .. } | Op::DirRename { .. } | Op::DirRemove { .. } | Op::DirRead { .. } | Op::DirWrite { .. } | Op::DirOpenDir { .. } => {
+            dir_step(errs, da, db, slots, op, seed, &tag).await;
+        }
         Op::PathMetadata { name, follow } => {
             let ours = if follow { compio_fs::metadata(pa(name)).await } else { compio_fs::symlink_metadata(pa(name)).await };
             let os = if follow { std::fs::metadata(pb(name)) } else { std::fs::symlink_metadata(pb(name)) };
             if same_outcome(errs, &tag, &ours, &os) {
-                compare_meta(errs, &tag, &ours.unwrap(), &os.unwrap());
+                compare_meta(errs, &tag, ours.as_ref().unwrap(), &os.unwrap());
+                let same = if follow { std::fs::metadata(pa(name)) } else { std::fs::symlink_metadata(pa(name)) };
+                if let Ok(same) = same {
+                    compare_times(errs, &tag, &ours.unwrap(), &same);
+                }
+            }
+        }
+        _ => {}
+    }
+}
+
+/// Operations through directory handles: names relative to a `Dir` on the compio side, the same absolute
+/// paths through std on the twin tree.
+async fn dir_step(errs: &Errs, da: &Path, db: &Path, slots: &mut [Option<Handle>], op: Op, seed: u64, tag: &str) {
+    let (Ok(top), Ok(below)) = (compio_fs::Dir::open(da).await, compio_fs::Dir::open(da.join("sub")).await) else {
+        errs.push("outcome", format!("{tag}: the task's directories could not be opened as Dir handles"));
+        return;
+    };
+    sim::probe("dir-handle-op");
+    let dir = |sub: bool| if sub { &below } else { &top };
+    let pb = |sub: bool, n: usize| if sub { db.join("sub").join(NAMES[n]) } else { db.join(NAMES[n]) };
+    match op {
+        Op::DirOpen { slot, sub, name, how } => {
+            if let Some(h) = slots[slot].take() {
+                let _ = h.ours.close().await;
+            }
+            let (ours, os) = match how {
+                0 => (dir(sub).open_file(NAMES[name]).await, std::fs::File::open(pb(sub, name))),
+                1 => (dir(sub).create_file(NAMES[name]).await, std::fs::File::create(pb(sub, name))),
+                2 => {
+                    let mut oo = compio_fs::OpenOptions::new();
+                    oo.read(true).write(true).create(true);
+                    (dir(sub).open_file_with(NAMES[name], &oo).await, std::fs::OpenOptions::new().read(true).write(true).create(true).open(pb(sub, name)))
+                }
+                _ => {
+                    let mut oo = compio_fs::OpenOptions::new();
+                    oo.write(true).create_new(true);
+                    (dir(sub).open_file_with(NAMES[name], &oo).await, std::fs::OpenOptions::new().write(true).create_new(true).open(pb(sub, name)))
+                }
+            };
+            if same_outcome(errs, tag, &ours, &os) {
+                slots[slot] = Some(Handle { ours: ours.unwrap(), os: os.unwrap() });
+            }
+        }
+        Op::DirCreateDir { sub, name, all } => match all {
+            None => {
+                let ours = dir(sub).create_dir(NAMES[name]).await;
+                let os = std::fs::create_dir(pb(sub, name));
+                same_outcome(errs, tag, &ours, &os);
+            }
+            Some(b) => {
+                let ours = dir(sub).create_dir_all(Path::new(NAMES[name]).join(NAMES[b])).await;
+                let os = std::fs::create_dir_all(pb(sub, name).join(NAMES[b]));
+                same_outcome(errs, tag, &ours, &os);
+            }
+        },
+        Op::DirMetadata { sub, name, follow } => {
+            let ours = if follow { dir(sub).metadata(NAMES[name]).await } else { dir(sub).symlink_metadata(NAMES[name]).await };
+            let os = if follow { std::fs::metadata(pb(sub, name)) } else { std::fs::symlink_metadata(pb(sub, name)) };
+            if same_outcome(errs, tag, &ours, &os) {
+                compare_meta(errs, tag, ours.as_ref().unwrap(), &os.unwrap());
+                let pa = if sub { da.join("sub").join(NAMES[name]) } else { da.join(NAMES[name]) };
+                if let Ok(same) = if follow { std::fs::metadata(&pa) } else { std::fs::symlink_metadata(&pa) } {
+                    compare_times(errs, tag, &ours.unwrap(), &same);
+                }
+            }
+        }
+        Op::DirHardLink { sub, from, to_sub, to } => {
+            let ours = dir(sub).hard_link(NAMES[from], dir(to_sub), NAMES[to]).await;
+            let os = std::fs::hard_link(pb(sub, from), pb(to_sub, to));
+            same_outcome(errs, tag, &ours, &os);
+        }
+        Op::DirSymlink { sub, from, to } => {
+            let ours = dir(sub).symlink(NAMES[from], NAMES[to]).await;
+            let os = std::os::unix::fs::symlink(NAMES[from], pb(sub, to));
+            same_outcome(errs, tag, &ours, &os);
+        }
+        Op::DirRename { sub, from, to_sub, to } => {
+            let ours = dir(sub).rename(NAMES[from], dir(to_sub), NAMES[to]).await;
+            let os = std::fs::rename(pb(sub, from), pb(to_sub, to));
+            same_outcome(errs, tag, &ours, &os);
+        }
+        Op::DirRemove { sub, name, dir: is_dir } => {
+            let ours = if is_dir { dir(sub).remove_dir(NAMES[name]).await } else { dir(sub).remove_file(NAMES[name]).await };
+            let os = if is_dir { std::fs::remove_dir(pb(sub, name)) } else { std::fs::remove_file(pb(sub, name)) };
+            same_outcome(errs, tag, &ours, &os);
+        }
+        Op::DirRead { sub, name } => {
+            if std::fs::metadata(pb(sub, name)).map(|m| m.len() > 1 << 20).unwrap_or(false) {
+                return;
+            }
+            let ours = dir(sub).read(NAMES[name]).await;
+            let os = std::fs::read(pb(sub, name));
+            if same_outcome(errs, tag, &ours, &os) {
+                let (a, b) = (ours.unwrap(), os.unwrap());
+                if a != b {
+                    errs.push("content", format!("{tag}: compio read {} bytes, std {}: {}", a.len(), b.len(), first_diff(&a, &b)));
+                }
+            }
+        }
+        Op::DirWrite { sub, name, len } => {
+            let data = sim::payload(seed, len);
+            let ours = dir(sub).write(NAMES[name], data.clone()).await.0;
+            let os = std::fs::write(pb(sub, name), &data);
+            same_outcome(errs, tag, &ours, &os);
+        }
+        Op::DirOpenDir { sub, name } => {
+            let ours = dir(sub).open_dir(NAMES[name]).await;
+            // what std does to open a directory for reading its entries
+            let os = std::fs::OpenOptions::new().read(true).custom_flags(libc::O_DIRECTORY).open(pb(sub, name));
+            if same_outcome(errs, tag, &ours, &os) {
+                let (ours, os) = (ours.unwrap().dir_metadata().await, os.unwrap().metadata());
+                if same_outcome(errs, tag, &ours, &os) {
+                    compare_meta(errs, tag, &ours.unwrap(), &os.unwrap());
+                }
             }
         }
         _ => {}
@@ -508,6 +654,17 @@ fn compare_meta(errs: &Errs, tag: &str, ours: &compio_fs::Metadata, os: &std::fs
     if a != b {
         errs.push("metadata", format!("{tag}: compio reports (file, dir, symlink, len, mode) = {a:?}, the OS {b:?}"));
     }
+}
+
+/// Time stamps of one object as compio reports them and as the OS's own call on the same object does
+/// (nothing touches the object between the two).
+fn compare_times(errs: &Errs, tag: &str, ours: &compio_fs::Metadata, same: &std::fs::Metadata) {
+    let a = (ours.modified().ok(), ours.accessed().ok(), ours.created().ok());
+    let b = (same.modified().ok(), same.accessed().ok(), same.created().ok());
+    if a != b {
+        errs.push("metadata-times", format!("{tag}: compio reports (modified, accessed, created) = {a:?}, the OS for the same object {b:?}"));
+    }
+    sim::probe(if b.0 != b.1 { "times-compared-atime-differs" } else { "times-compared" });
 }
 
 fn listing(root: &Path) -> std::io::Result<Vec<(PathBuf, String)>> {
